@@ -238,6 +238,8 @@ def scenarios(tier):
     S.append(mk("responsive-stop-I1", "responsive", 1.0, stops=True, max_ticks=8, max_depth=60, max_states=400000,
                 explored=("deliver", "lose", "tick", "expire", "silence", "stop", "close")))
     S.append(mk("responsive-lose1-I1", "responsive", 1.0, lose=1, lose_both=True, max_ticks=8, dev_bound=3 if q else 4, max_depth=80))
+    # three generations: two plain losses of a responsive connection (bookkeeping that accumulates across generations)
+    S.append(mk("responsive-lose2-I1-dev", "responsive", 1.0, lose=2, lose_both=True, max_ticks=12, dev_bound=2 if q else 3, max_depth=120))
     S.append(mk("silent-lose1-I1", "silent", 1.0, lose=1, lose_both=True, max_ticks=10, dev_bound=3 if q else 4, max_depth=80))
     return S
 
